@@ -1,6 +1,6 @@
 (* C20 -- executable model of frappy remote logging (RemoteLogHandler.handle / set_conn_level / check_level,
    Module.setRemoteLogging, Dispatcher.handle_logging / set_all_log_levels / reset_connection /
-   remove_connection) and of LogfileHandler.doRollover with retention.  No proofs in this file.
+   remove_connection) and of LogfileHandler.doRollover with retention (as repaired by 8755e5f, f977176).  No proofs in this file.
    OFF, COMLOG and the slice used by doRollover come from the generated FV.Gen.C20. *)
 From Coq Require Import List Arith ZArith Bool NArith.
 Import ListNotations.
@@ -169,7 +169,9 @@ Definition run (mods : list name) (ops : list op) : table :=
   fold_left (fun t o => fst (step mods t o)) ops [].
 
 (* ------------------------------------------------------------------ LogfileHandler.doRollover *)
-Record entry := { e_name : name; e_dir : bool }.
+(* a directory entry: its name and whether it is a regular file (entry.is_file(follow_symlinks=False));
+   sub-directories and symbolic links such as `current` are not *)
+Record entry := { e_name : name; e_file : bool }.
 Definition dir := list entry.
 
 Definition cur_name : name := [99;117;114;114;101;110;116]%N.          (* 'current' *)
@@ -184,8 +186,8 @@ Fixpoint del_name (n : name) (d : dir) : dir :=
 (* _open: os.remove(current) (errors ignored), os.symlink(..., current) (errors ignored), open(file, 'a') *)
 Definition open_file (d : dir) (fn : name) : dir :=
   let d1 := del_name cur_name d in
-  let d2 := d1 ++ [{| e_name := cur_name; e_dir := false |}] in
-  if has_name fn d2 then d2 else d2 ++ [{| e_name := fn; e_dir := false |}].
+  let d2 := d1 ++ [{| e_name := cur_name; e_file := false |}] in
+  if has_name fn d2 then d2 else d2 ++ [{| e_name := fn; e_file := true |}].
 
 (* python str comparison: lexicographic on code points *)
 Fixpoint name_leb (a b : name) : bool :=
@@ -204,9 +206,21 @@ Fixpoint insert (e : entry) (l : list entry) : list entry :=
 Fixpoint sort (l : list entry) : list entry :=
   match l with [] => [] | e :: r => insert e (sort r) end.
 
-(* files = sorted(entry.path for entry in it if entry.name != 'current') *)
-Definition listing (d : dir) : list entry :=
-  sort (filter (fun e => negb (name_eqb (e_name e) cur_name)) d).
+(* str.startswith / str.endswith *)
+Fixpoint starts_with (s p : name) : bool :=
+  match p, s with
+  | [], _ => true
+  | _ :: _, [] => false
+  | x :: p', y :: s' => N.eqb x y && starts_with s' p'
+  end.
+Definition ends_with (s suffix : name) : bool := starts_with (rev s) (rev suffix).
+
+(* entry.name.startswith(self.rootname + '-') and entry.name.endswith('.log') and entry.is_file(follow_symlinks=False) *)
+Definition own_log (rootname : name) (e : entry) : bool :=
+  starts_with (e_name e) (rootname ++ [45%N]) && ends_with (e_name e) dot_log && e_file e.
+
+(* files = sorted(entry.path for entry in it if <own_log>) *)
+Definition listing (rootname : name) (d : dir) : list entry := sort (filter (own_log rootname) d).
 
 Inductive slice_kind := SliceTail | SliceHead.
 (* SliceTail: files[-max_days:]     SliceHead: files[:-max_days]     (max_days > 0) *)
@@ -216,25 +230,25 @@ Definition removal_slice (k : slice_kind) (n : nat) (files : list entry) : list 
   | SliceHead => firstn (length files - n) files
   end.
 
-(* for filepath in ...: os.remove(filepath) -- a directory makes os.remove raise, the loop ends there *)
-Fixpoint remove_loop (d : dir) (victims : list entry) : dir * bool :=
+(* for filepath in ...: os.remove(filepath) -- every victim is a regular file *)
+Fixpoint remove_loop (d : dir) (victims : list entry) : dir :=
   match victims with
-  | [] => (d, false)
-  | v :: r => if e_dir v then (d, true) else remove_loop (del_name (e_name v) d) r
+  | [] => d
+  | v :: r => remove_loop (del_name (e_name v) d) r
   end.
 
-Definition do_rollover (k : slice_kind) (prefix : name) (max_days : nat) (d : dir) (date : name) : dir * bool :=
-  let d1 := open_file d (log_name prefix date) in
+Definition do_rollover (k : slice_kind) (rootname : name) (max_days : nat) (d : dir) (date : name) : dir :=
+  let d1 := open_file d (log_name rootname date) in
   match max_days with
-  | 0 => (d1, false)
-  | S _ => remove_loop d1 (removal_slice k max_days (listing d1))
+  | 0 => d1
+  | S _ => remove_loop d1 (removal_slice k max_days (listing rootname d1))
   end.
 
-(* the slice found in the source *)
+(* the slice found in the source (0: files[-max_days:], 1: files[:-max_days]) *)
 Definition source_slice : slice_kind := if Nat.eqb rollover_slice_code 1 then SliceHead else SliceTail.
 
-Fixpoint rollovers (k : slice_kind) (prefix : name) (max_days : nat) (d : dir) (dates : list name) : dir :=
+Fixpoint rollovers (k : slice_kind) (rootname : name) (max_days : nat) (d : dir) (dates : list name) : dir :=
   match dates with
   | [] => d
-  | dt :: r => rollovers k prefix max_days (fst (do_rollover k prefix max_days d dt)) r
+  | dt :: r => rollovers k rootname max_days (do_rollover k rootname max_days d dt) r
   end.
